@@ -139,7 +139,7 @@ func c04Scripts(tier string) []uciParams {
 func init() {
 	Defs["C04"] = &Def{
 		ID:   "C04",
-		Rule: "engine (plain alpha-beta + the four bundled engines, constructed by code LIFTED from cmd/*/main.go at check time) x options (Hash 0/1, Noise, OwnBook on/off, flags) x set-up (K v K both colours, checkmated, stalemated, claimable three-fold via moves, five-fold via moves, bare kings after a capture played in the moves list, half-move clock 100, fortress with and without moves, start position with book; a generic book with en passant lines on positions inside, transposed into and past its lines) x go variant (depth 1/2, bare, movetime, wtime/btime(+movestogo), infinite->stop, depth->stop, go;await;go, go;await;go infinite;stop, go;stop;await;other position;go;await). The GUI awaits each bestmove; `stop` is released (a) as a lazy thread at ANY scheduling point for one deviation, timers likewise, and (b) at scheduler step k for a grid of k over the whole unstopped run, timers likewise, each engine goroutine in turn held back for 80 steps after the stop (slow-thread dimension); all schedules within the deviation bound. Oracle per execution: every go answered by exactly one bestmove (a GUI parked forever on await = missing answer), the move is reference-legal in the position last set up, 0000 iff that position has no legal move. distinct_nontrivial = distinct event-log classes",
+		Rule: "engine (plain alpha-beta + the four bundled engines, constructed by code LIFTED from cmd/*/main.go at check time) x options (Hash 0/1, Noise, OwnBook on/off, flags) x set-up (K v K both colours, checkmated, stalemated, claimable three-fold via moves, five-fold via moves, bare kings after a capture played in the moves list, half-move clock 100, fortress with and without moves, start position with book; a generic book with en passant lines on positions inside, transposed into and past its lines) x go variant (depth 1/2, bare, movetime, wtime/btime(+movestogo), infinite->stop, depth->stop, go;await;go, go;await;go infinite;stop, go;stop;await;other position;go;await). The GUI awaits each bestmove; `stop` is released (a) as a lazy thread at ANY scheduling point for one deviation, timers likewise, and (b) at scheduler step k for a grid of k over the whole unstopped run, timers likewise, each engine goroutine in turn held back for 80 steps after the stop (slow-thread dimension); all schedules within the deviation bound. Oracle per execution: every go answered by exactly one bestmove (a GUI parked forever on await = missing answer), the move is reference-legal in the position last set up, 0000 iff that position has no legal move. Conformance of the lifted engines with the shipped ones: the REAL binaries (built from the tree under test; real logger, real stdin/stdout plumbing) and the lifted engines run the same 14 UCI sessions x 5 engine configurations (noise off), incl. end of input, unknown lines, other white space, options, an overstepped clock, an under-promotion in the moves list: everything printed except info lines must be identical line for line (book sessions: answered and ended), one bestmove per go, exit status 0 on quit and on end of input. distinct_nontrivial = distinct event-log classes",
 		Gen: func(tier string) []explore.Scenario {
 			var out []explore.Scenario
 			for _, p := range c04Scripts(tier) {
@@ -195,6 +195,7 @@ func init() {
 			}
 			return out
 		},
+		Setup: binaryConformance,
 		Bound: func(tier string, sc explore.Scenario) int {
 			var p uciParams
 			_ = json.Unmarshal(sc.Spec.Params, &p)
